@@ -125,6 +125,7 @@ fn exec(scn: Scn, n: usize, prefix: &[usize]) -> (Exec<()>, Outcome) {
             o2.max_look.fetch_max(look, Ordering::SeqCst);
         })),
         step_log: None,
+        free_receivers: vec![],
     };
     let o3 = obs.clone();
     let x = sched::run(cfg, move |ctl| {
@@ -331,7 +332,7 @@ fn child_main(spec: &Value) -> ! {
     let panic_at = spec["panic_at"].as_u64().unwrap() as usize;
     let prefix: Vec<usize> = spec["choices"].as_array().unwrap().iter().map(|v| v.as_u64().unwrap() as usize).collect();
     let log = std::path::PathBuf::from(spec["log"].as_str().unwrap());
-    let cfg = Config { threads: scn.threads(), consumer_controlled: true, horizon: 400, prefix, state_fn: None, monitor: None, step_log: Some(log) };
+    let cfg = Config { threads: scn.threads(), consumer_controlled: true, horizon: 400, prefix, state_fn: None, monitor: None, step_log: Some(log), free_receivers: vec![] };
     let x = sched::run(cfg, move |_ctl| {
         let it = build(scn, n, Arc::new(AtomicUsize::new(0)), Some(panic_at));
         let mut got = 0usize;
